@@ -154,12 +154,18 @@ def lattice_points(quick):
         for cpu in ("cpu=x86-64-v2", "cpu=x86-64-v3", "cpu=native"):
             pts.append((std, False, False, cpu))
     # (every point is built in both tiers: an incremental build of the library takes about a second)
-    return pts
+    # profile dimension: cfg(debug_assertions) is a build switch too. Release builds of every
+    # no_std point and of the plain / +sse4.2 / +avx2 std points (thorough: of every point).
+    rel = [p + ("release",) for p in pts if not quick or not p[0] or (not p[1] and not p[2] and p[3] in ("", "+sse4.2", "+avx2"))]
+    return [p + ("dev",) for p in pts] + rel
 
 
 def lattice_cmd(pt):
-    std, dis, ct, tf = pt
+    std, dis, ct, tf = pt[:4]
+    profile = pt[4] if len(pt) > 4 else "dev"
     name = "std%d-dis%d-ct%d-%s" % (std, dis, ct, tf.replace("+", "").replace(",", "_").replace(".", "").replace("=", "-") or "none")
+    if profile == "release":
+        name += "-release"
     env = dict(ENV)
     env["CARGO_TARGET_DIR"] = os.path.join(TARGET, "lattice", name)
     if tf.startswith("cpu="):
@@ -171,6 +177,8 @@ def lattice_cmd(pt):
     if ct:
         env["CARGO_CFG_HTTPARSE_DISABLE_SIMD_COMPILETIME"] = "1"
     cmd = ["cargo", "build", "--offline", "--lib"]
+    if profile == "release":
+        cmd.append("--release")
     if not std:
         cmd.append("--no-default-features")
     return name, cmd, env
@@ -199,10 +207,27 @@ def run_lattice(res, prop):
             res.add_violation(path, "build switches %s: %s" % (name, "; ".join(errs[:2])))
     res.states += len(pts)
     res.transitions += len(pts)
-    res.samples.append({"build": "cargo build --lib with std=%s CARGO_CFG_HTTPARSE_DISABLE_SIMD=%s ..._COMPILETIME=%s target-feature=%r" % pts[1]})
+    res.samples.append({"build": "cargo build --lib with std=%s CARGO_CFG_HTTPARSE_DISABLE_SIMD=%s ..._COMPILETIME=%s target-feature=%r profile=%s" % pts[1]})
     res.engines.append({"engine": "build lattice (cargo build --lib of /repo, one target dir per point, no hooks)",
                         "points": len(pts), "built": ok,
-                        "space": "std on/off x DISABLE_SIMD x DISABLE_SIMD_COMPILETIME x target-feature {none,+sse4.2,+avx2,+sse4.2,+avx2}, plus std on/off x target-cpu {x86-64-v2, x86-64-v3, native}" + " (all 38 points)"})
+                        "space": "std on/off x DISABLE_SIMD x DISABLE_SIMD_COMPILETIME x target-feature {none,+sse4.2,+avx2,+sse4.2,+avx2}, plus std on/off x target-cpu {x86-64-v2, x86-64-v3, native} (38 points, dev profile); release profile (debug assertions off): every no_std point and the plain/+sse4.2/+avx2 std points (thorough: all 38)"})
+
+
+def warm_builds():
+    """bin/setup: builds every lattice point and cross leg once, so that the checks only re-verify."""
+    class R:  # a throw-away result
+        tier = "quick"
+        states = transitions = 0
+        def __init__(self):
+            self.violations, self.samples, self.engines = [], [], []
+        def add_violation(self, *a):
+            self.violations.append(a)
+    r = R()
+    run_lattice(r, "C19")
+    try:
+        run_cross_targets(r, "C19", ["core-only", "core-only-i686", "core-only-aarch64", "core-only-riscv32"])
+    except Machinery:
+        pass
 
 
 VARIANTS = {
@@ -313,6 +338,12 @@ def run_cross_targets(res, prop, which):
     legs = {
         "core-only": (["cargo", "+nightly", "build", "--offline", "--lib", "-Zbuild-std=core", "--target", "x86_64-unknown-none", "--no-default-features"],
                       "builds against core alone: the x86_64-unknown-none sysroot built here has no std and no alloc crate"),
+        "core-only-i686": (["cargo", "+nightly", "build", "--offline", "--lib", "-Zbuild-std=core", "--target", "i686-unknown-linux-gnu", "--no-default-features"],
+                           "builds against core alone for 32-bit x86 (the build script and the runtime-detection module key on the architecture)"),
+        "core-only-aarch64": (["cargo", "+nightly", "build", "--offline", "--lib", "-Zbuild-std=core", "--target", "aarch64-unknown-none", "--no-default-features"],
+                              "builds against core alone for aarch64 (NEON scanners without std)"),
+        "core-only-riscv32": (["cargo", "+nightly", "build", "--offline", "--lib", "-Zbuild-std=core", "--target", "riscv32imac-unknown-none-elf", "--no-default-features"],
+                              "builds against core alone for a 32-bit target without SIMD"),
         "aarch64": (["cargo", "+nightly", "check", "--offline", "--lib", "-Zbuild-std=std", "--target", "aarch64-unknown-linux-gnu"],
                     "NEON module type-checks against the real aarch64 intrinsics"),
         "i686": (["cargo", "+nightly", "check", "--offline", "--lib", "-Zbuild-std=std", "--target", "i686-unknown-linux-gnu"],
@@ -660,7 +691,7 @@ XT_ALL = list(range(len(XT_PARTS)))
 XT_RULES = {
     "C06": ([0, 5], "full"), "C07": ([1, 6], "full"), "C08": ([2, 3], "full"), "C14": ([4], "full"), "C09": ([7], "full"),
     "C13": (XT_ALL, "full"), "C03": (XT_ALL, "frame"), "C10": (XT_ALL, "errkind"), "C05": (XT_ALL, "hygiene"),
-    "C04": (XT_ALL, "oob"), "C01": (XT_ALL, "panic"),
+    "C04": (XT_ALL, "oob"), "C01": (XT_ALL, "panic"), "C11": (XT_ALL, "partial"),
 }
 MIRIFLAGS_BY_TIER = {
     # the quick tier trades Miri's typed-copy validity checks (its most expensive monitor, ~2x) for time;
@@ -803,6 +834,9 @@ def xt_offender(rule, nrow, trow):
         return (n["st"], n["n"], n["fields"]) != (t["st"], t["n"], t["fields"])
     if rule == "frame":
         return n["frame"] != t["frame"] and "E" not in (n["frame"], t["frame"]) and "PANIC" not in (n["frame"], t["frame"])
+    if rule == "partial":
+        # native Err (the native result is checked against the reference grammar): Partial is not honest
+        return t["frame"] == "P" and n["frame"] == "E"
     if rule == "errkind":
         return n["errkind"] != t["errkind"] and ((n["errkind"] != "0" and t["errkind"] != "0") or "7" in (n["errkind"], t["errkind"]))
     if rule == "hygiene":
@@ -819,7 +853,7 @@ def run_xtarget(res, prop):
     tier = res.tier
     table = xt_table(tier)
     native = build_variant("runtime", "release")
-    col = {"full": 2, "frame": 3, "errkind": 4, "hygiene": 5, "oob": 6, "panic": 7}
+    col = {"full": 2, "frame": 3, "partial": 3, "errkind": 4, "hygiene": 5, "oob": 6, "panic": 7}
     total = 0
     if prop == "C12" or prop == "C13" or prop == "C01":
         for key, g in sorted(table["grid"].items()):
@@ -859,7 +893,7 @@ def run_xtarget(res, prop):
                     continue  # reported under C01
                 raise Machinery("no result line for %s %s" % (t, key))
             compared += int(nl[1])
-            same = nl[col[rule]] == tl[col[rule]] if rule in ("full", "frame", "errkind") else tl[col[rule]] == "0"
+            same = nl[col[rule]] == tl[col[rule]] if rule in ("full", "frame", "partial", "errkind") else tl[col[rule]] == "0"
             if same or reported >= 3:
                 continue
             # narrow down to one input
@@ -923,7 +957,7 @@ def run_for(prop, tier, res):
         extra.append("profile leg: chunk-size partitions of the digest corpus under release and dev (debug assertions) builds of every variant")
     elif prop == "C19":
         run_lattice(res, "C19")
-        run_cross_targets(res, "C19", ["core-only"])
+        run_cross_targets(res, "C19", ["core-only", "core-only-i686", "core-only-aarch64", "core-only-riscv32"])
         extra.append("allocation: a counting #[global_allocator] in the explorer, per-thread counter read around every call")
     elif prop == "C04":
         run_lifetimes(res)
